@@ -142,7 +142,11 @@ Lemma class_array_size : forall t n, class_ctor FArray t (CSize n) = Ret (OArr (
 Lemma class_with_collator : forall t c l, class_ctor FSet t (CWithCollator c l) = out_map (OSet c) (set_add_all (zero_of t) (ranker c) [] l).
 Proof. reflexivity. Qed.
 
-Ltac class_vals := rewrite ?class_make_list, ?class_make_set, ?class_make_catalog, ?class_make_map, ?class_array_size, ?class_with_collator.
+Lemma set_add_all_nil : forall z (rk : val -> val -> comparison) l, set_add_all z rk l [] = Ret l. Proof. reflexivity. Qed.
+
+Lemma ordered_nil : forall m, ordered m [] = m. Proof. intros [|p l]; reflexivity. Qed.
+
+Ltac class_vals := rewrite ?class_make_list, ?class_make_set, ?class_make_catalog, ?class_make_map, ?class_array_size, ?class_with_collator, ?set_add_all_nil, ?ordered_nil.
 Ltac fin2 :=
   lazy; class_vals; lazy;
   repeat match goal with
@@ -150,4 +154,28 @@ Ltac fin2 :=
          end;
   reflexivity.
 (* run the statements up to the loop over the parsed items (or to the end) *)
-Ltac to_loop := repeat first [ timeout 20 xstep | progress class_vals | progress cbv beta iota ].
+Ltac to_loop := repeat first [ timeout 20 xstep | progress class_vals | progress cbn [set_add_all out_map out_bind] | progress cbv beta iota ].
+
+
+Ltac rhs_open :=
+  unfold finish_set, finish_list, finish_array, finish_pairs, source_values, source_pairs, array_from_source;
+  cbn [s_size s_has_size s_values s_seq s_text s_parsed s_coll s_assocs s_map s_aseq has_text nonempty parsed_items parsed_pairs get_list];
+  class_vals.
+Ltac kill_stuck :=
+  change (ranker 0%nat) with rk_default in *;
+  repeat (class_vals;
+          match goal with
+          | |- context [convert_all ?t ?its] => destruct (convert_all t its)
+          | |- context [convert_pairs ?a ?b ?its] => destruct (convert_pairs a b its)
+          | |- context [array_fill ?a ?b ?c ?d] => destruct (array_fill a b c d)
+          | |- context [set_add_all ?z ?r ?a ?l] => destruct (set_add_all z r a l)
+          end).
+Ltac after_loop := timeout 20 rhs_open; timeout 30 (lazy; class_vals; lazy); timeout 20 kill_stuck; timeout 30 fin2.
+
+Ltac leaf := cbn [plus]; timeout 60 to_loop; after_loop.
+Ltac seq_cases2 pv :=
+  destruct pv; match goal with |- context [PColl (VSeq ?k _)] => destruct k; match goal with |- context [VSeq KSlice] => leaf | |- _ => idtac end | |- _ => leaf end.
+Ltac set_loop :=
+  cbn [plus]; timeout 60 to_loop;
+  timeout 20 (match goal with |- context [fold_loop ?st ?its ?env] => erewrite (set_add_loop _ _ _ _ _ _ st its (fun x e => eq_refl)); [ | cbn; congruence | cbn; lia | cbn; lia | reflexivity ] end);
+  after_loop.
